@@ -3,7 +3,7 @@
    The whole exchange is computed symbolically: every message is a closed expression in the draws and parameters. *)
 From Coq Require Import ZArith NArith List Lia ZifyN ZifyNat ZifyBool Bool Znumtheory.
 From MTV Require Import Base.Bytes Base.Outcome Prim.Xor Crypto.Ige Crypto.IgeMem Crypto.IgeProofs Crypto.TempKeys
-  Crypto.TempKeysProofs Crypto.Envelope TL.Types
+  Crypto.TempKeysProofs Crypto.Envelope Crypto.EnvelopeProofs TL.Types
   Handshake.Bytes Handshake.Objects Handshake.ObjectsProofs Handshake.Client Handshake.Server Handshake.Abort Handshake.AgreeLemmas.
 Import ListNotations.
 Open Scope N_scope.
@@ -497,6 +497,11 @@ Proof. rewrite <- Lnn. apply fixed_bytes_of_be, Onn. Qed.
 Lemma F16 : fixed_bytes 16 (of_be srvn) = srvn.
 Proof. rewrite <- Ls. apply fixed_bytes_of_be, Os. Qed.
 
+Lemma of_be_dpb : of_be dpb = p.
+Proof. apply of_be_fixed_bytes. Qed.
+Lemma of_be_gab : of_be gab = gan.
+Proof. apply of_be_fixed_bytes. Qed.
+
 Lemma range_guard : negb ((of_be gab <=? 1) || (Z.of_N (of_be dpb) - 1 <=? Z.of_N (of_be gab))%Z) = true.
 Proof.
   unfold gab, dpb. rewrite !of_be_fixed_bytes. destruct (c_ga_range _ _ _ CF) as [Hlo Hhi]. fold gan p in Hlo, Hhi.
@@ -514,7 +519,7 @@ Proof.
   rewrite !N.eqb_refl. cbn [guard wbind ret app]. rewrite client_decrypts. cbn [of_outcome wbind ret app].
   rewrite answer_dec. cbn [i_nonce i_srv i_g i_dh_prime i_ga]. rewrite !N.eqb_refl. cbn [guard wbind ret app].
   rewrite range_guard. cbn [guard wbind ret app].
-  rewrite g_signed. unfold gab at 1 2, dpb at 1 2. rewrite !of_be_fixed_bytes. fold b gbn gabn akey.
+  rewrite g_signed. rewrite !of_be_dpb, !of_be_gab. fold b gbn gabn akey.
   rewrite F32, F16.
   rewrite (gslice_ok (H akey) 0 8) by (rewrite ?H_len; lia). cbn [of_outcome wbind ret app].
   change (8 - 0)%nat with 8%nat. rewrite skipn_O. fold aux.
@@ -547,7 +552,7 @@ Proof.
   set (pt := H inner ++ inner ++ cpad).
   assert (Lpt : length pt = (20 + length inner + length cpad)%nat) by (unfold pt; rewrite !app_length, H_len; lia).
   assert (Hn : length pt = (16 * Nat.div (length pt) 16)%nat) by (apply aligned_blocks; rewrite Lpt; exact Hal).
-  assert (Opt : okb pt) by (unfold pt; repeat (apply okb_app; split); auto using okb_inner).
+  assert (Opt : okb pt) by (unfold pt; apply okb_app; split; [apply H_ok|apply okb_app; split; [exact okb_inner|exact Oc]]).
   unfold enc2. fold pt.
   apply (ige_decrypt_encrypt_ok E D E_len key iv pt (Nat.div (length pt) 16)
            (fun blk Hb => E_ok key blk Ok Hb) (fun blk Hb Ob => DE key blk Lk Ok Hb Ob) Liv Hn Oiv Opt).
@@ -618,15 +623,72 @@ Proof.
   change (256 ^ N.of_nat 256) with (256 ^ 256). lia.
 Qed.
 
+Lemma salt_lt : salt < 2 ^ 64.
+Proof.
+  unfold salt. set (x := xorb (firstn 8 nn) (firstn 8 srvn)).
+  assert (Lx : length x = 8%nat) by (unfold x; apply xorb_length_eq; rewrite firstn_length; lia).
+  pose proof (of_le_bound x) as Hb. rewrite Lx in Hb. change (256 ^ N.of_nat 8) with (2 ^ 64) in Hb.
+  apply Hb. unfold x. apply xorb_okb; apply okb_firstn; assumption.
+Qed.
+
 (* ---------------------------------------------------------------------------------------------- *)
 Theorem agreement :
   handshake H E D modexp is_prime split foreign_ok pk dr env0
     = ([SendPlain f1; SendPlain f2; SendPlain f3; Save akey kh salt], Go (Success akey kh salt)) /\
   srv_secrets H D modexp sp f1 f2 f3 = Some (mksecrets akey kh salt hash1 nn) /\
-  length akey = 256%nat.
+  length akey = 256%nat /\ salt < 2 ^ 64.
 Proof.
-  split; [|split; [apply secrets_is|apply akey_length]].
+  split; [|split; [apply secrets_is|split; [apply akey_length|apply salt_lt]]].
   unfold handshake. rewrite stage1_is. cbn [wbind]. rewrite stage2_is. cbn [wbind]. rewrite stage3_is. reflexivity.
 Qed.
 
 End Agreement.
+
+(* ---------------------------------------------------------------------------------------------- *)
+(* the same, with the messages and secrets existentially quantified and the SHA-1 hypothesis stated on the
+   server's answer as the server computes it; plus the first encrypted request (Crypto/EnvelopeProofs.v: C03) *)
+Theorem agreement_full (H : bytes -> bytes) (E D : bytes -> bytes -> bytes) (modexp : Z -> Z -> Z -> Z)
+    (is_prime : N -> bool) (split : N -> option (N * N)) (foreign_ok : bytes -> bool) :
+  (forall m, length (H m) = 20%nat) -> (forall m, okb (H m)) ->
+  (forall k b, length (E k b) = 16%nat) -> (forall k b, length (D k b) = 16%nat) ->
+  (forall k b, okb k -> okb b -> okb (E k b)) ->
+  (forall k b, length k = 32%nat -> okb k -> length b = 16%nat -> okb b -> D k (E k b) = b) ->
+  (forall b e m, (0 <= e)%Z -> (0 < m)%Z -> modexp b e m = ((b ^ e) mod m)%Z) ->
+  (forall n, n < 2 ^ 64 -> is_prime n = true -> prime (Z.of_N n)) ->
+  (forall n a b, split n = Some (a, b) -> a * b = n /\ 1 < a /\ a <= b) ->
+  forall sp, conformant H modexp sp ->
+  forall dr, draws_ok dr ->
+  split (s_p sp * s_q sp) <> None ->
+  (forall answer, srv_answer modexp sp (d_nonce dr) = Some answer ->
+     forall i, (0 < i <= pad_need (20 + length answer))%nat ->
+       H (answer ++ firstn i (s_pad sp (pad_need (20 + length answer)))) <> H answer) ->
+  exists f1 f2 f3 key kid salt hash1,
+    outcome_of (handshake H E D modexp is_prime split foreign_ok (mkpub (s_n sp) (s_e sp)) dr (srv_env H E D modexp sp))
+      = ([SendPlain f1; SendPlain f2; SendPlain f3; Save key kid salt], Success key kid salt) /\
+    srv_secrets H D modexp sp f1 f2 f3 = Some (mksecrets key kid salt hash1 (d_new_nonce dr)) /\
+    length key = 256%nat /\
+    ((forall k iv d, length iv = 32%nat -> (length d mod 16 = 0)%nat -> length (ige_encrypt E k iv d) = length d) ->
+     (forall k iv d, length k = 32%nat -> length iv = 32%nat -> (length d mod 16 = 0)%nat ->
+                     ige_decrypt D k iv (ige_encrypt E k iv d) = d) ->
+     forall sid msgid seq ack body,
+       sid < 2 ^ 64 -> msgid < 2 ^ 64 -> seq < 2 ^ 32 -> N.of_nat (length body) < 2 ^ 31 ->
+       exists pkt,
+         connect_and_request H E D modexp is_prime split foreign_ok (mkpub (s_n sp) (s_e sp)) dr
+             (srv_env H E D modexp sp) sid msgid seq ack body
+           = ([SendPlain f1; SendPlain f2; SendPlain f3; Save key kid salt; SendEncrypted pkt], Success key kid salt) /\
+         open_server H (ige_decrypt D) key pkt = Some (salt, sid, msgid, EnvelopeProofs.seq_ack seq ack, body)).
+Proof.
+  intros HL HO EL DL EO DE ME PS SS sp CF dr DR SX NC.
+  pose proof (answer_is H E D modexp is_prime split foreign_ok HL HO EL DL EO DE ME PS SS sp CF dr DR) as Ha.
+  specialize (NC _ Ha).
+  destruct (agreement H E D modexp is_prime split foreign_ok HL HO EL DL EO DE ME PS SS sp CF dr DR SX) as (A & B & C & S).
+  { intros i Hi. apply NC. rewrite (c_pad_len _ _ _ CF) in Hi. exact Hi. }
+  do 7 eexists. split; [rewrite A; reflexivity|]. split; [exact B|]. split; [exact C|].
+  intros IL II sid msgid seq ack body Hsid Hmsg Hseq Hbody.
+  match type of C with length ?k = _ => set (key := k) in * end.
+  match type of S with ?s < _ => set (salt := s) in * end.
+  destruct (EnvelopeProofs.server_opens_client H HL (ige_encrypt E) (ige_decrypt D) IL II key salt sid msgid seq ack body)
+    as (pkt & Hseal & Hopen & _); try lia.
+  exists pkt. split; [|exact Hopen].
+  unfold connect_and_request. rewrite A. cbn [outcome_of]. rewrite Hseal. reflexivity.
+Qed.
